@@ -166,6 +166,14 @@ def connPy : Kind → Py
   | .binary | .varbinary => .bytes
   | .variant | .object | .array | .json => .str
 
+/-- Python's `str(Decimal)` switches to scientific notation iff the exponent is positive or the adjusted exponent
+    (`exp + digits − 1`) is below −6 (`decimal.py` `__str__`) -/
+def pyDecimalStrSci (digits : Nat) (exp : Int) : Bool := decide (exp > 0) || decide (exp + digits - 1 < -6)
+
+/-- the pyformat path binds a `Decimal` client-side as the quoted text `str(d)` (connector `to_snowflake`); DuckDB's
+    VARCHAR → DECIMAL cast accepts plain notation only (engine behaviour) -/
+def pyformatDecimalAccepted (digits : Nat) (exp : Int) : Bool := !pyDecimalStrSci digits exp
+
 /-! ## 4. copy statements on a tiny relational model -/
 
 abbrev Cell := Option Int            -- a stored value (abstract) or NULL
